@@ -68,7 +68,8 @@ func HostileSeeds() []Seed {
 	}
 	// string literals over ASCII punctuation and awkward sequences
 	for _, s := range []string{"!", "#", "$", "%", "&", "'", "(", ")", "*", "+", ",", "-", ".", "/", ":", ";", "<", "=", ">", "?", "@", "[", "]", "^", "_", "{", "|", "}", "~",
-		"{{", "}}", "*/", "/*", "//", "%s", "%d", "<<", ">>", "$0", "a b", "\\", "\\n", "\\d", "`", "␚", "é", "INVALID"} {
+		"{{", "}}", "*/", "/*", "//", "%s", "%d", "<<", ">>", "$0", "a b", "\\", "\\n", "\\d", "`", "␚", "é", "INVALID",
+		"%%", "%token", "100%", "%v%", "%[1]d", "%!", "{{.}}", "{{end}}", "$", "$$", "$T0", "$Context", "\\\\", "\\\"", "'", "''", "/*x*/", "// x", "a\tb", "  "} {
 		q := `"` + s + `"`
 		if strings.ContainsAny(s, `"\`) {
 			q = "`" + s + "`"
@@ -84,6 +85,12 @@ func HostileSeeds() []Seed {
 	add("strlit-bom", "a : 'a' ;\nS : a \"\ufeff\" ;\n")
 	add("strlit-tab-vt", "a : 'a' ;\nS : a \"\t\v\" ;\n")
 	add("strlit-rawnl", "a : 'a' ;\nS : a `x\ny` ;\n")
+	// bytes that are not UTF-8 inside a string literal terminal (a lone lead byte, a lone continuation byte, a
+	// truncated sequence, an encoded surrogate, 0xFF)
+	for i, b := range []string{"\xff", "x\xc3", "\x80y", "\xe2\x82", "\xed\xa0\x80", "\xf8\x88\x80\x80\x80"} {
+		add(fmt.Sprintf("strlit-illformed-%d", i), "a : 'a' ;\nS : a \""+b+"\" | \""+b+"\" S ;\n")
+		add(fmt.Sprintf("strlit-illformed-raw-%d", i), "a : 'a' ;\nS : a `"+b+"` ;\n")
+	}
 	// character literals
 	for _, c := range []string{`'\''`, `'\\'`, `'"'`, `'\n'`, `'\x00'`, `'\u2318'`, `'\U0010ffff'`, "'`'", `'%'`, `'{'`, `'}'`, `'\t'`, `'\a'`, `'\377'`, `'é'`, `'\ufffd'`} {
 		add("charlit-"+c, fmt.Sprintf("t : %s 'a' ;\nu : 'b' %s-%s ;\n", c, c, c))
